@@ -10,6 +10,8 @@ RULES = {"C14.a", "C14.b", "C14.c", "C14.d", "C14.e"}
 
 
 def check(ctx):
+    from .common import compiled_scanner_is_frozen
+    compiled_scanner_is_frozen(ctx, "C02.m")   # nothing edits a compiled scanner after the pipeline produced it (closed writer sets)
     if ctx.tier == "thorough":
         from . import witness
         witness.analyze(ctx, "C14.a")
